@@ -148,6 +148,9 @@ func (ex *Exec) execFunc(fn *ssa.Function, args []Val, bind []Val, st *State, re
 		reach: map[*ssa.BasicBlock]string{}, outSt: map[*ssa.BasicBlock]*State{}, edge: map[[2]int]string{}}
 	fr.c = ex.w.contracts[fn]
 	fr.entry = st.clone()
+	if top {
+		ex.topFrame = fr
+	}
 	fr.loops = computeLoops(fn)
 	fr.npanic = panicOrdinals(fn)
 	for i, p := range fn.Params {
@@ -438,8 +441,8 @@ func (fr *frame) execBlock(b *ssa.BasicBlock, st0 *State, reach0 string) {
 				ex.assume(imp(reach, fr.evalClause(inv, b, st, nil)))
 			}
 			// implicit invariant: the unit's frame condition holds throughout the loop
-			if fr.top && fr.c != nil && fr.c.HasMod && !ex.loopAll[lid] {
-				for _, g := range fr.frameGoals(st, ex.loopMods[lid]) {
+			if tf := ex.topFrame; tf != nil && tf.c != nil && tf.c.HasMod && !ex.loopAll[lid] {
+				for _, g := range tf.frameGoals(st, ex.loopMods[lid]) {
 					ex.assume(imp(reach, g))
 				}
 			}
@@ -544,10 +547,10 @@ func (fr *frame) goTo(b *ssa.BasicBlock, succ *ssa.BasicBlock, cond string, st *
 		for phi, ov := range saved {
 			fr.vals[phi] = ov
 		}
-		if fr.top && fr.c != nil && fr.c.HasMod && !ex.discover {
+		if tf := ex.topFrame; tf != nil && tf.c != nil && tf.c.HasMod && !ex.discover {
 			lid := loopID(fr.fn, ord)
-			if gs := fr.frameGoals(st, ex.loopMods[lid]); len(gs) > 0 && !ex.loopAll[lid] {
-				ex.oblige(fr.label(fmt.Sprintf("loop%d.frame.preserved", ord)), "frame", nil, imp(cond, and(gs...)), fr.c.Pos, "implicit frame invariant")
+			if gs := tf.frameGoals(st, ex.loopMods[lid]); len(gs) > 0 && !ex.loopAll[lid] {
+				ex.oblige(fr.label(fmt.Sprintf("loop%d.frame.preserved", ord)), "frame", nil, imp(cond, and(gs...)), tf.c.Pos, "implicit frame invariant")
 			}
 		}
 		return
